@@ -414,6 +414,9 @@ def scripted_resolve(host):
         return host
     if isinstance(host, str):
         host.encode("idna")
+    if host and (host.endswith(".invalid") or host.startswith("nx")):
+        import socket
+        raise socket.gaierror(-2, "Name or service not known")      # what getaddrinfo raises for a name that does not resolve
     return "127.0.0.9"
 
 
@@ -800,7 +803,7 @@ def gen_sse_stream(rng, invalid_utf8=False):
             elif k < 0.72:
                 line = b"event" + rng.choice([b": ", b":"]) + rng.choice(["add", "msg", "", "x y"]).encode('utf-8')
             elif k < 0.84:
-                line = b"retry" + rng.choice([b": ", b":"]) + rng.choice(["5", "3000", "+5", "1_0", " 5", "5 ", "", "12a", "007", "-1", "²", "１２", "٣"]).encode('utf-8')
+                line = b"retry" + rng.choice([b": ", b":"]) + rng.choice(["5", "3000", "+5", "1_0", " 5", "5 ", "", "12a", "007", "-1", "²", "１２", "٣", "9" * 308, "9" * 309, "1" + "0" * 400, "9" * 4300]).encode('utf-8')
             elif k < 0.92:
                 line = b":" + rng.choice(["", " comment", "data: no"]).encode()
             else:
@@ -816,13 +819,89 @@ def gen_sse_stream(rng, invalid_utf8=False):
     return s
 
 
+def interpreted_headers():
+    from ..extract import httpparse as xhp
+    return xhp.interpreted_headers()
+
+
+_HDR_BASE = {
+    "content-type": ["text/plain", "text/html; charset=utf-8", "application/json", "text/event-stream", "multipart/form-data; boundary=xx"],
+    "content-length": ["0", "3", "17"], "transfer-encoding": ["chunked", "gzip, chunked", "identity"],
+    "connection": ["close", "keep-alive", "Upgrade"], "keep-alive": ["timeout=5, max=100"], "proxy-connection": ["keep-alive"],
+    "host": ["h:80", "127.0.0.1:8080", "[::1]:80"], "location": ["http://127.0.0.1:8080/n", "/rel"], "accept-encoding": ["identity", "gzip;q=0.5"],
+    "last-event-id": ["7"], "date": ["Thu, 01 Jan 2026 00:00:00 GMT"], "server": ["x/1.0 (y)"],
+}
+
+
+def damage_header_value(rng, name):
+    """grammar-level damage of the parameter syntax of a structured header value: empty parameters, missing '=', duplicate
+    ';', bare tokens, quotes, white space, commas, duplicated separators — for any header name"""
+    base = rng.choice(_HDR_BASE.get(name, ["v", "a=b", "tok; p=1"]))
+    ops = rng.randrange(1, 4)
+    v = base
+    for _ in range(ops):
+        k = rng.randrange(14)
+        if k == 0:
+            v = v + ";"
+        elif k == 1:
+            v = v + "; charset"
+        elif k == 2:
+            v = v + ";;"
+        elif k == 3:
+            v = v + "; =x"
+        elif k == 4:
+            v = v + "; q=\"a;b\""
+        elif k == 5:
+            v = v + "; q=\"unterminated"
+        elif k == 6:
+            v = ";" + v
+        elif k == 7:
+            v = v.replace("=", " = ", 1) if "=" in v else v + " ;  p  =  1 "
+        elif k == 8:
+            v = v.replace("=", "", 1) if "=" in v else v + "=" 
+        elif k == 9:
+            v = v + ", " + v
+        elif k == 10:
+            v = v.replace(";", ",", 1) if ";" in v else v + ",,"
+        elif k == 11:
+            v = rng.choice(["", " ", ";", "=", ";;", "charset", "=;=", "\"", ",", "; ;"])
+        elif k == 12:
+            v = v + rng.choice(["\t", " \t ", "\x0b", "\xa0", "\x00"])
+        else:
+            v = v.upper() if rng.random() < 0.5 else v + ";" + v
+    return v.encode("latin-1", "replace")
+
+
+def damage_headers(rng, data, names=None):
+    """replace or insert, in the first message head of `data`, lines `Name: <damaged value>` for 1-2 of the headers the code
+    interprets by name (list read from the source)"""
+    names = names or interpreted_headers()
+    head, sep, rest = data.partition(b"\r\n\r\n")
+    if not sep:
+        head, sep, rest = data.partition(b"\n\n")
+        if not sep:
+            return data
+    eol = b"\r\n" if b"\r\n" in head or sep == b"\r\n\r\n" else b"\n"
+    lines = head.split(eol)
+    for _ in range(rng.choice([1, 1, 2])):
+        nm = rng.choice(names)
+        val = damage_header_value(rng, nm)
+        shown = rng.choice([nm.title(), nm, nm.upper()]).encode()
+        idx = [i for i, l in enumerate(lines) if i > 0 and l.lower().startswith(nm.encode() + b":")]
+        if idx and rng.random() < 0.7:
+            lines[idx[0]] = shown + b": " + val
+        else:
+            lines.insert(rng.randrange(1, len(lines) + 1), shown + b": " + val)
+    return eol.join(lines) + sep + rest
+
+
 def gen_location(rng):
     """a redirect Location drawn from the URL grammar with adversarial pieces at every position (latin-1 text)"""
     if rng.random() < 0.12:
         return rng.choice(["/relative", "relative/x", "?q=1", "//127.0.0.1:8080/n", "//other.example/x", "", " ", "#f", "../x", "/a//b"])
     scheme = rng.choice(["http", "http", "http", "https", "HTTP", "ftp", "", "ht tp"])
     user = rng.choice(["", "", "", "u@", "u:p@", "@", "u:p:q@"])
-    host = rng.choice(["127.0.0.1", "127.0.0.1", "127.0.0.1", "127.0.0.2", "localhost", "other.example", "a..b", ".a", "a.", "x" * 64 + ".com",
+    host = rng.choice(["127.0.0.1", "127.0.0.1", "127.0.0.1", "127.0.0.2", "localhost", "other.example", "gone.invalid", "nxdomain.example", "a..b", ".a", "a.", "x" * 64 + ".com",
                        "\xe9.example", "xn--", "[::1]", "[::1", "::1]", "[zz]", "[]", "", "h_st", "h st", "1.2.3.4.5", "%41", "a" * 300])
     port = rng.choice(["", "", ":8080", ":8080", ":80", ":0", ":65535", ":65536", ":99999", ":ab", ":-1", ":", ": 80", ":8080x", ":\xb2"])
     path = rng.choice(["/n", "/n", "", "/", "//other.example/x", "//127.0.0.1:81/x", "//127.0.0.1:99999/x", "//127.0.0.1:8080/x", "//[::1/x", "//a..b/x",
@@ -846,6 +925,8 @@ def gen_redirect(rng):
 
 def mutate_bytes(rng, data, k=None):
     """near-valid mutations: the corner a malformed-input bug needs"""
+    if rng.random() < 0.35:
+        data = damage_headers(rng, bytes(data))
     data = bytearray(data)
     for _ in range(k or rng.randrange(1, 4)):
         op = rng.randrange(9)
